@@ -525,6 +525,15 @@ fn parse_token(
                 } else {
                     // continue
 
+                    // a node still waiting for this token as its right operand
+                    // cannot also become part of this token's left side
+                    if n.right == Some(id) {
+                        Err(CompilerError::new_message(format!(
+                            "Syntax Error: Missing operand between {:?} and {:?}",
+                            n.definition, definition
+                        )))?;
+                    }
+
                     true_left = Some(left_index);
                     current_left = n.parent
                 }
